@@ -95,3 +95,30 @@ MDD_RULE = ("random TableDP instances (1..7 layers, 1..6 base states, 1..3 decis
 MDD_TRIVIAL = ["lel", "frontier", "pooled", "exact", "relaxed", "restricted", "history", "knapsack", "dominance"]
 MDD_TB = TB_COMMON + ["user code (Problem / Relaxation / ranking / dominance rule) is a parameter of the model; the harness families are re-implemented in Lean (Families.lean) from the same instance text",
                       "FxHashMap iteration order: only `best` ties depend on it (ebpMust / ebpMay relation); slice::sort_unstable_by returns a sorted permutation; isize saturating arithmetic = clamp"]
+
+MDD_ENGINES = [dict(name="mdd", label="mdd_clean", args=[]), dict(name="mdd", label="mdd_pooled", args=["--pooled"]),
+               dict(name="mdd", label="mdd_pooled_long", args=["--pooled", "--long-arcs"])]
+
+PROPS["C13"].update(dict(
+    claimed=True,
+    engines=[dict(name="width"), dict(name="mdd", label="mdd_clean", args=[]), dict(name="mdd", label="mdd_pooled", args=["--pooled"])],
+    level_text="Sentence 2 (the width-heuristic combinators never yield zero) is proved for every nesting of Times / DivBy / FixedWidth / NbUnassignedWidth and every sub-problem. Sentence 1 (per-layer width bound) is evaluated as the property predicate on every compilation the diagram engine explores (number of for_each_in_domain calls between two next_variable calls, seen by a recording Problem wrapper, for restricted and relaxed compilations of the three diagram implementations), and the executable diagram models (which reproduce the implementation's per-layer expansion counts exactly on everything explored) are the vehicle for the planned theorem expanded_le_width_* - stated, not yet proved.",
+    level_note="Partial: the per-layer bound is not yet a theorem about the diagram model (stage 2); it is checked by phi on the implementation and by exact equality of the per-layer expansion counts between model and implementation. usize arithmetic is the checked arithmetic of the debug / overflow-checks profile.",
+    stated_not_proved=["expanded_le_width_restricted / expanded_le_width_relaxed on Mdd.lean / Pooled.lean (per-layer bound as a theorem)"],
+    trusted_base=MDD_TB + ["usize arithmetic: checked (panic on overflow / underflow / division by zero)"],
+    rule="(a) nested width combinators on a grid + random; (b) " + MDD_RULE,
+    trivial_tags=["plain"] + MDD_TRIVIAL,
+))
+
+PROPS["C12"] = dict(
+    modules=["DdoModel.Props.C12"],
+    theorems=["Ddo.C12.expandAll_calls_ok", "Ddo.C12.expandOne_calls_ok", "Ddo.C12.relaxLayer_calls_ok", "Ddo.C12.mem_sortBy"],
+    stated_not_proved=["the whole-compilation protocol (depth argument of next_variable = layers since the problem root; domains only for the selected variable and states of the layer) as one theorem over buildLoop: evaluated by phiProtocol on every implementation log, not proved"],
+    level_text="For the diagram models (which reproduce the implementation's multiset of calls into user code exactly on every explored compilation) it is proved, for every input, that every transition / transition_cost / for_each_in_domain / fast_upper_bound call issued while expanding a layer is for the layer's variable, on a state of the layer, with dst = transition(src, d) and d in the domain; and that every relax call issued by a merge receives as merged the state just returned by merge over the merged-away states, as dst one of them, with an inbound arc's decision and current cost. The complete protocol predicate of the property (incl. the depth handed to next_variable and the per-layer domain discipline) is evaluated in Lean on the chronological log of every implementation run.",
+    level_note="Partial: the two call sites are proved coherent on the model; the whole-compilation statement is evaluated (phi) rather than proved. Trusted: recording wrappers around Problem / Relaxation in the harness.",
+    engines=MDD_ENGINES,
+    trusted_base=MDD_TB,
+    assumptions=["the harness families compute the relaxed cost from dst and merged (relax = cost + slack * |merged \\ dst|), so swapped arguments change results"],
+    rule=MDD_RULE + "; pooled diagrams additionally with long arcs (random irrelevance patterns)",
+    trivial_tags=MDD_TRIVIAL,
+)
